@@ -1695,6 +1695,10 @@ def transform(fn, proceed, to_instrument=True, set_conformer=True):
     actual_fn.__doc__ = fn.__doc__
     actual_fn.__qualname__ = fn.__qualname__
     actual_fn.__module__ = fn.__module__
+    # Attributes set on the function (by decorators, or by functools.wraps)
+    actual_fn.__dict__.update(
+        {k: v for k, v in fn.__dict__.items() if not k.startswith("__ptera")}
+    )
 
     try:
         from codefind import code_registry
